@@ -29,12 +29,12 @@ HOST_BLOCK = (0x8000, bytes([0x10, 0x11, 0x34, 0x12, 0x02, 0x80, 0x01, 0x01]))
 
 
 def bound(tier):
-    return ("record sequences of length 1..3 over 9 kinds (9+81+729) x 6 deltas x 5 placements (+ repeat); every byte-prefix of 3 well-formed "
+    return ("record sequences of length 1..%d over 9 kinds" % (4 if tier == "thorough" else 3) + " (9+81+729%s)" % ("+6561" if tier == "thorough" else "") + " x 6 deltas x 5 placements (+ repeat); every byte-prefix of 3 well-formed "
             "files + 6 header/EOF variants")
 
 
 def cases(tier, seed):
-    for n in (1, 2, 3):
+    for n in ((1, 2, 3, 4) if tier == "thorough" else (1, 2, 3)):
         for first in itertools.product(range(len(KINDS)), repeat=n - 1):
             yield ("seq", first)
     yield ("malformed",)
